@@ -627,8 +627,9 @@ func (loader *Loader) resolveRef(ref string, path *url.URL) (string, *url.URL, e
 		return "", nil, err
 	}
 
-	fragment := "#" + resolvedPathRef.Fragment
-	resolvedPathRef.Fragment = ""
+	// the fragment goes on as reference text (resolveComponent parses it again): keep its escapes
+	fragment := "#" + resolvedPathRef.EscapedFragment()
+	resolvedPathRef.Fragment, resolvedPathRef.RawFragment = "", ""
 	return fragment, resolvedPathRef, nil
 }
 
